@@ -424,6 +424,7 @@ static ssize_t stream_read(Kernel::FdEntry *f, struct iovec *iov, int iovcnt, vo
     if (cur.data.empty()) e->rx.pop_front();
   }
   e->bytes_in += done;
+  if (e->peer) e->peer->peer_consumed += done;
   K->stats.bytes_sut_read += done;
   if (K->trace) K->trace(name, e->id, (int64_t)done);
   return (ssize_t)done;
